@@ -31,7 +31,6 @@ structure DNode (nd : Nd) : Prop where
   nh : nd.kind.hasHelper = false → nd.helperDone = true
   ih : isInflux nd.kind = true → nd.helperDone = true → nd.stopping = true
   nl : isLoop nd.kind = false
-  nu : isUdf nd.kind = false
   fd : nd.fwdDead = false
   bd : isBarrier nd.kind = true → nd.done = true → nd.helperDone = true
 
@@ -40,8 +39,8 @@ def DPair (nd c : Nd) : Prop := (nd.done = true → c.inClosed = true ∨ c.inAb
 
 set_option maxHeartbeats 4000000 in
 theorem nodeStep_DNode {env a nd child r} (h : nodeStep env a nd child = some r) (hd : DNode nd)
-    (hleak : env.alertLeak = false) (hea : env.influxEarlyAbort = false) : DNode r.nd := by
-  obtain ⟨h1, ab, fa, dn, fh, al, ah, ad, as, nh, ih, nl, nu, fd, bd⟩ := hd
+    (hleak : env.alertLeak = false) (hea : env.influxEarlyAbort = false) (hfo : env.udfFwdOrphan = false) : DNode r.nd := by
+  obtain ⟨h1, ab, fa, dn, fh, al, ah, ad, as, nh, ih, nl, fd, bd⟩ := hd
   have hstop : bufK nd.kind = true → nd.failed = false → (0 < nd.inq ∨ nd.hand = 1) → nd.stopping = false := by
     intro a b c
     cases hs : nd.stopping with
